@@ -33,8 +33,7 @@ def relevant_base(ex, formulas):
     cc = [ex.cls_const(n) for n in cls]
     for a in cls:
         for b in cls:
-            f = Z.subclass(ex.cls_const(a), ex.cls_const(b))
-            out.append(f if facts.issub(a, b) else z3.Not(f))
+            out.append(ex.sub_fact[(a, b)])
     sc = [Z.const(n) for n in sing] + [Z.NONE, Z.TRUE, Z.FALSE]
     out.append(z3.Distinct(*(sc + cc)))
     for n in sing:
@@ -63,14 +62,71 @@ def group(obligations):
     return out
 
 
+_DECL_FUN = {
+    'py_subclass': '(declare-fun py_subclass (Int Int) Bool)', 'py_truthy': '(declare-fun py_truthy (Int) Bool)',
+    'py_is_int': '(declare-fun py_is_int (Int) Bool)', 'py_is_str': '(declare-fun py_is_str (Int) Bool)',
+    'py_is_tuple': '(declare-fun py_is_tuple (Int) Bool)', 'py_klass': '(declare-fun py_klass (Int) Int)',
+    'py_callable': '(declare-fun py_callable (Int) Bool)',
+}
+_NAME_RE = None
+
+
+def base_text(ex, smt):
+    """ground class-hierarchy / singleton facts, as SMT-LIB text, restricted to the constants the query mentions"""
+    import re
+    global _NAME_RE
+    if _NAME_RE is None:
+        _NAME_RE = re.compile(r'\(declare-fun (\|[^|]+\||[^ ]+) ')
+    declared = set(m.strip('|') for m in _NAME_RE.findall(smt))
+    facts = ex.facts
+    cname = lambda n: 'CLS_' + n.replace('.', '_')
+    cls = [n for n in facts.class_names if cname(n) in declared]
+    for must in ('object', 'BaseException', 'Exception', 'NoneType'):
+        if must not in cls:
+            cls.append(must)
+    sing = [n for n in facts.singletons if n in declared]
+    decls, out = [], []
+    def need_const(n):
+        if n not in declared:
+            declared.add(n)
+            decls.append('(declare-fun %s () Int)' % n)
+    for f, d in _DECL_FUN.items():
+        if f not in declared:
+            declared.add(f)
+            decls.append(d)
+    for n in cls:
+        need_const(cname(n))
+    for n in ('py_None', 'py_True', 'py_False'):
+        need_const(n)
+    for a in cls:
+        for b in cls:
+            t = '(py_subclass %s %s)' % (cname(a), cname(b))
+            out.append('(assert %s)' % (t if facts.issub(a, b) else '(not %s)' % t))
+    allc = sing + ['py_None', 'py_True', 'py_False'] + [cname(n) for n in cls]
+    out.append('(assert (distinct %s))' % ' '.join(allc))
+    for n in sing:
+        tv = 'true' if facts.singleton_truthy[n] else 'false'
+        cv = 'true' if facts.singleton_callable[n] else 'false'
+        kc = cname(facts.singleton_class[n])
+        need_const(kc)
+        out.append('(assert (and (= (py_truthy {0}) {1}) (not (py_is_int {0})) (not (py_is_str {0})) (not (py_is_tuple {0})) (= (py_klass {0}) {2}) (= (py_callable {0}) {3})))'.format(n, tv, kc, cv))
+    out.append('(assert (and (= (py_klass py_None) CLS_NoneType) (not (py_is_int py_None)) (not (py_is_str py_None)) (not (py_is_tuple py_None)) (not (py_truthy py_None)) (not (py_callable py_None)) (py_truthy py_True) (not (py_truthy py_False))))')
+    for n in cls:
+        out.append('(assert (and (py_callable {0}) (py_truthy {0}) (not (py_is_int {0})) (not (py_is_str {0})) (not (py_is_tuple {0}))))'.format(cname(n)))
+    return decls, out
+
+
 def to_smt2(ex, ob, extra_axioms=()):
     s = z3.Solver()
     parts = ob.get('parts') or [(ob['pc'], ob['goal'])]
     bad = [z3.And(*(list(pc) + [z3.Not(goal)])) for pc, goal in parts]
     fs = [z3.Or(*bad) if len(bad) > 1 else bad[0]] + list(extra_axioms)
-    s.add(*relevant_base(ex, fs))
     s.add(*fs)
-    return s.to_smt2()
+    smt = s.to_smt2()
+    decls, facts = base_text(ex, smt)
+    body = smt.replace('(check-sat)', '')
+    # declarations first (z3 prints them before the first assert); new ones go on top
+    return '\n'.join(decls) + '\n' + body + '\n' + '\n'.join(facts) + '\n(check-sat)\n'
 
 
 def _solve(job):
@@ -136,16 +192,6 @@ def _race(job):
             return res
         res['solver'] = winner
         res['status'] = 'proved' if verdicts[winner] == 'unsat' else 'refuted'
-        if res['status'] == 'refuted' and want_model:
-            try:
-                s = z3.Solver()
-                s.set('timeout', 20000)
-                s.from_string(smt)
-                if s.check() == z3.sat:
-                    m = s.model()
-                    res['model'] = {str(x): str(m[x])[:300] for x in m.decls()[:400] if x.arity() == 0}
-            except Exception:
-                pass
         return res
     except Exception as e:
         return {'name': name, 'solver': 'z3+cvc5', 'status': 'error', 'reason': repr(e)[:300], 'time': time.time() - t0}
@@ -186,6 +232,20 @@ def discharge_all(ex, obligations, workers=None, rlimit=None, second_solver=Fals
     from concurrent.futures import ThreadPoolExecutor
     with ThreadPoolExecutor(max_workers=workers) as pool:
         results = list(pool.map(_race, jobs))
+    # counter-models are extracted afterwards in the main thread (the z3 Python API is not thread-safe)
+    nmodels = 0
+    for job, r in zip(jobs, results):
+        if r['status'] == 'refuted' and nmodels < 6:
+            nmodels += 1
+            try:
+                s = z3.Solver()
+                s.set('timeout', 20000)
+                s.from_string(job[1])
+                if s.check() == z3.sat:
+                    m = s.model()
+                    r['model'] = {str(x): str(m[x])[:300] for x in m.decls()[:400] if x.arity() == 0}
+            except Exception:
+                pass
     if second_solver:
         idx = [i for i, r in enumerate(results) if r['status'] == 'proved' and r['solver'] == 'z3']
         with ThreadPoolExecutor(max_workers=workers * 2) as pool:
